@@ -2,6 +2,7 @@ package driver
 
 import (
 	"fmt"
+	"os"
 
 	"verif/engine/symex"
 )
@@ -80,5 +81,63 @@ func init() {
 		},
 		assumptions: []string{"termination of the two suffix searches (SuggestName, addImport) is argued, not proved: finitely many names are visible and Sprintf(\"%s%d\") is injective in the counter"},
 		note:        "full function-level claim: representation invariant of Registry (bijection paths<->qualifiers) and set semantics of MethodScope.visibleNames are proved for every input and every call history; partial correctness",
+	})
+}
+
+// funcMapPhase checks the direct bindings of template_funcs.FuncMap (object identity with the
+// documented namesake, decided by go/types) and that every key has a contract.
+func funcMapPhase(cr *checkResult, w *symex.World) {
+	pkg := w.Pkgs["github.com/vektra/mockery/v3/template_funcs"]
+	if pkg == nil {
+		cr.undecided = append(cr.undecided, "UNDECIDED property=C16 obligation=funcmap reason=package template_funcs not loaded")
+		return
+	}
+	covered := map[string]bool{}
+	for _, c := range w.Contracts {
+		if len(c.Target) > 8 && c.Target[:8] == "funcmap " {
+			key := c.Target[8:]
+			if len(key) >= 2 {
+				key = key[1 : len(key)-1]
+			}
+			covered[key] = true
+			if c.Binding == "" || c.Fn == nil {
+				continue
+			}
+			name := "template_funcs.FuncMap[\"" + key + "\"]/binding"
+			got := w.BindingObject(c)
+			cr.obligations++
+			res := "proved"
+			if got == c.Binding {
+				cr.discharged++
+			} else {
+				res = "refuted"
+				dir := verifDir + "/replays/C16"
+				os.MkdirAll(dir, 0o755)
+				path := dir + "/" + sanitize(name) + ".txt"
+				os.WriteFile(path, []byte(fmt.Sprintf("property: C16\nfailed obligation: %s\nFuncMap[%q] is documented to be %s but is bound to %s (object identity by go/types)\nfailing input: any template that calls %q\n", name, key, c.Binding, got, key)), 0o644)
+				cr.violations = append(cr.violations, fmt.Sprintf("VIOLATION property=C16 replay=%s obligation=%s", path, name))
+			}
+			cr.per = append(cr.per, perObl{Name: name, Kind: "binding", Result: res, Backend: "go/types"})
+		}
+	}
+	for _, k := range w.FuncMapKeys(pkg, "FuncMap") {
+		if !covered[k] {
+			cr.undecided = append(cr.undecided, fmt.Sprintf("UNDECIDED property=C16 obligation=template_funcs.FuncMap[%q] reason=key has no contract (new template function without a documented specification)", k))
+		}
+	}
+}
+
+func init() {
+	register(&propInfo{
+		id:       "C16",
+		patterns: []string{"./template_funcs"},
+		trusted: []string{
+			"strings.*, unicode.*, utf8.DecodeRuneInString, slices.Min, regexp.*, filepath.*, xstrings.*, math.* are uninterpreted pure functions: only that mockery passes the documented arguments in the documented order (or binds the documented object) is proved",
+			"axioms lower_is_letter (Unicode Ll is a subset of L and disjoint from Lu) and decode_size (1 <= size <= len) in template_funcs/zz_verif_contracts.go",
+			"os.ReadFile is an opaque file-system read",
+			"division by zero and slices.Min on an empty slice panic; text/template converts the panic into a template error (allowed by the property)",
+		},
+		note:  "full for mockery's own code: every FuncMap entry is either proved equal to its documented namesake applied in the documented argument order (lambdas), proved to be the documented object (direct bindings, by go/types identity), or proved against a functional specification (Exported, FirstIsLower, ReadFile, Add/Sub/Mul/Div/Mod/Incr/Decr/Min at int with 64-bit wrap-around)",
+		extra: funcMapPhase,
 	})
 }
